@@ -770,10 +770,10 @@ def region_signature(c, W):
     tips = [W[f's{i}'] for i in range(n)]
     if c['cls'] == 'BD':
         return SIG_BD0 if any(s == 0 for s in tips) else SIG_BD
-    if c['times'] == 'rel':
-        return SIG_REL
     if all(s == 0 for s in tips) and W['rho'] == 0:
         return SIG_ALL0
+    if c['times'] == 'rel':
+        return SIG_REL
     if c['m'] == 1:
         return SIG_ONE
     if c['removal']:
